@@ -55,7 +55,9 @@ def c16(out, kmax_exh, nsample, seed, ngen):
     perm_runs = [([0, 1, 4, 6], 2), ([0, 4, 1, 6], 2), ([1, 0, 6, 4], 2), ([2, 3, 8, 20], 2), ([2, 8, 3, 20], 2), ([5, 7, 11, 15, 19, 22], 3), ([7, 5, 15, 11, 22, 19], 3), ([22, 19, 15, 11, 7, 5], 3)]
     # first a list whose gates are pairwise compatible, then lists (same length, same subgroup size) whose gates all collide
     lead_runs = [([0, 6, 17, 23], 2), ([10, 11, 12, 13], 2), ([0, 6, 17, 23, 8, 15], 3), ([10, 11, 12, 13, 4, 5], 3)]
-    for idx, size in lead_runs + runs[:ngen] + perm_runs:
+    # edge lists whose length is not a multiple of the subgroup size (nothing can use every gate exactly once in full steps)
+    odd_runs = [([0, 1, 2], 2), ([0, 6, 17, 23, 8], 2), ([10, 11, 12, 13], 3), ([0, 6], 3), ([4, 5, 8, 9, 17], 3)]
+    for idx, size in lead_runs + runs[:ngen] + perm_runs + odd_runs:
         es = [edges[i] for i in idx]
         gen = GateSequenceGenerator(included_edge_ids=es, connectivity=S)
         ident = gen.construct_allowed_gate_sequences(subgroup_size=size)
